@@ -52,6 +52,19 @@ impl<C: SimColor> Dimensions for DynTarget<'_, C> {
     }
 }
 
+thread_local! {
+    /// Internal iteration: the shim is transparent for `next` (and `nth`, which `&mut I` forwards),
+    /// but an `Iterator::fold` override of a library iterator can never be reached through a
+    /// `&mut dyn Iterator`. When this flag is on (devices that walk pixel streams with `for_each`),
+    /// the shim itself consumes the iterator it is handed with `for_each` — a target that buffers
+    /// the pixels before transmitting them — and hands the buffer on.
+    static FOLD_MODE: std::cell::Cell<bool> = std::cell::Cell::new(false);
+}
+
+pub fn set_fold_mode(on: bool) {
+    FOLD_MODE.with(|f| f.set(on));
+}
+
 impl<C: SimColor> DrawTarget for DynTarget<'_, C> {
     type Color = C;
     type Error = SimError;
@@ -60,7 +73,13 @@ impl<C: SimColor> DrawTarget for DynTarget<'_, C> {
     where
         I: IntoIterator<Item = Pixel<C>>,
     {
-        self.inner.e_draw_iter(&mut pixels.into_iter())
+        if FOLD_MODE.with(|f| f.get()) {
+            let mut buf: Vec<Pixel<C>> = Vec::new();
+            pixels.into_iter().for_each(|p| buf.push(p));
+            self.inner.e_draw_iter(&mut buf.into_iter())
+        } else {
+            self.inner.e_draw_iter(&mut pixels.into_iter())
+        }
     }
     fn fill_contiguous<I>(&mut self, area: &Rectangle, colors: I) -> Result<(), SimError>
     where
